@@ -468,6 +468,22 @@ def g12(ctx):
                    '%s joins two tokens without trivia in between (%s) outside the enumerated contexts (`define name chain, '
                    'number interiors, time_literal): blanks/comments are no longer accepted there' %
                    (name, '; '.join(junctions[name][:2])))
+    # the inverse: where the standard makes two parts ONE token, the junction must be trivia-less.  A.8.4 footnote: "the unsigned number or
+    # fixed-point number in time_literal shall not be followed by white space" — otherwise `#1.5 ns;` (a delay, then a call of a task
+    # named ns) is swallowed as a time literal and the sentence is rejected.  Role: the functions that build TimeLiteral* nodes.
+    for f in g.parsers():
+        if lexeme_fn(f) or not f.tail or f.tail[0] != 'ok' or not isinstance(f.tail[2], dict):
+            continue
+        built = [n_.get('p') for n_ in sx.walk(f.tail[2]) if n_.get('k') == 'struct' and str(n_.get('p', '')).startswith('TimeLiteral')]
+        if not built:
+            continue
+        binds_ = [st_ for st_ in f.stmts if st_[0] == 'bind']
+        r.inst('required-junction:%s' % f.name, {'fn': f.name, 'builds': built[0]})
+        if len(binds_) >= 2 and not ends_nt(binds_[0][3]):
+            r.fail('%s:%s:trivia-inside-compound-token' % (g.crate, f.name), '%s/%s:%d' % (g.crate, f.file, f.line),
+                   '%s builds %s from %s followed by the unit, and the number may be followed by white space or a comment: the standard makes the two ONE token (no white space '
+                   'after the number), so a delay followed by an identifier named like a unit (`#1.5 ns;`) is now read as a time literal and the sentence is rejected' %
+                   (f.name, built[0], grammar.show(binds_[0][3])[:40]))
     r.counts['productions_ending_without_trivia'] = len(fam)
     r.notes.append('productions ending in a trivia-less token: ' + ', '.join(fam))
     r.floor('raw_lexer_sites', nraw, 60)
